@@ -121,6 +121,9 @@ def value_attr(I, v, name):
             return SList(list(v.shape), "tuple")
         if name == "ndim":
             return v.ndim
+        if name == "itemsize":
+            from .libnp import _itemsize
+            return _itemsize(I)
         if name == "size":
             out = 1
             for s in v.shape:
